@@ -1,0 +1,6 @@
+//go:build !verif
+// +build !verif
+
+package nsqd
+
+func verifCrashPoint(p string) {}
